@@ -67,6 +67,8 @@ class EcuSharedData(DiagLayer):
         # diagnostic layer.
         self._database = database
 
+        self._invalidate_cached_properties()
+
         #####
         # resolve all SNREFs. TODO: We allow SNREFS to objects that
         # were inherited by the diaglayer. This might not be allowed
